@@ -14,6 +14,9 @@ sys.path.insert(0, os.path.join(os.path.dirname(os.path.abspath(__file__)), ".."
 import vcommon as V, circ, designgen as G, widegen
 
 
+CERT_BUDGET = 400000
+
+
 def refine_diff(pre, post):
     """first cycle/pin where a bit DEFINED in the constructed circuit has another value (or is undefined) after post-processing"""
     if [n for n, _ in pre["pins_out"]] != [n for n, _ in post["pins_out"]]:
@@ -50,9 +53,17 @@ def run(rep, driver, replay=None):
     G.write_programs(work / "designs.txt", [d[0] for d in designs])
     circ.run_harness(harness, str(work / "designs.txt"), str(work), "pre,def,min", nstim=3, cycles=6)
     lines = []
+    def in_bits(d):
+        return sum(1 if l.startswith("inb ") else int(l.split()[2]) for l in d if l.startswith(("in ", "inb ")))
+    certable = [i for i in ids if 3 ** in_bits(prog[i]) <= (729 if rep.tier == "quick" else 2187)]
     if driver:
         cmds = [f"tie {work}/{i}.{v}.net {work}/{i}.{v}.trace" for i in ids for v in ("pre", "def", "min")]
+        # few input bits: the VERIFIED certificate (Properties_C01.v) closes all stimuli and cycles for these wide designs too
+        cmds += [f"cert refine {work}/{i}.pre.net {work}/{i}.{v}.net {work}/{i}.pre.trace {CERT_BUDGET}" for i in certable for v in ("def", "min")]
         lines = circ.run_driver(driver, cmds, str(work / "batch"))
+    cert = [l for l in lines if l.startswith("CERT")]
+    cert_fail = [l for l in cert if " FAIL " in l]
+    cert_rej = [l for l in cert if " REJECTED " in l]
     tie_ok = sum(1 for l in lines if l.startswith("TIE") and " ok " in l)
     tie_bad = [l for l in lines if l.startswith("TIE") and "MISMATCH" in l]
     tie_uns = [l for l in lines if l.startswith("TIE") and ("UNSUPPORTED" in l or "BADORDER" in l)]
@@ -79,11 +90,41 @@ def run(rep, driver, replay=None):
                     viol.append(dict(property="C01", kind="wide design: real simulator shows different pin values before and after post-processing",
                                      variant=v, program=d, stimulus=circ.stim_of(x), real_simulator=dd))
                     break
-    rep.cov["wide_signals"] = dict(designs=len(designs) - skipped, skipped=skipped, trace_pairs_compared=compared, defined_pin_bits_compared=bits,
+    # counterexamples of the certificate search: replay on the real simulator
+    unconfirmed = []
+    for l in cert_fail:
+        p = l.split()
+        i, v = p[1].split("/")[-1].rsplit(".", 2)[0], p[2].split("/")[-1].rsplit(".", 2)[1]
+        m = [x for x in p if x.startswith("stimulus=")]
+        if any(vv["program"][0] == prog[i][0] for vv in viol):
+            continue
+        if not m:
+            unconfirmed.append(l); continue
+        cex = work / "cex"; cex.mkdir(exist_ok=True)
+        G.write_programs(cex / "designs.txt", [prog[i]])
+        open(cex / "stim.txt", "w").write(f"{i} {m[0][len('stimulus='):]}\n")
+        circ.run_harness(harness, str(cex / "designs.txt"), str(cex), f"pre,{v}", replay_stim=str(cex / "stim.txt"))
+        a = circ.parse_traces(cex / f"{i}.pre.trace").get(f"{i}.pre replay")
+        b = circ.parse_traces(cex / f"{i}.{v}.trace").get(f"{i}.{v} replay")
+        real = circ.direct_diff(a, b) if a and b else None
+        if real is None and a and b and "clean=true" in l and a["cycles"][-1][1] != b["cycles"][-1][1]:
+            real = dict(kind="pre run free of undefined values but post differs", cycle=len(a["cycles"]) - 1, pre=a["cycles"][-1][1], post=b["cycles"][-1][1])
+        if real:
+            viol.append(dict(property="C01", kind="wide design: post-processed circuit differs from the constructed circuit (product BFS, confirmed on the real simulator)",
+                             variant=v, program=prog[i], stimulus=m[0][len("stimulus="):], real_simulator=real, model=l))
+        else:
+            unconfirmed.append(l)
+    rep.cov["wide_signals"] = dict(certificates_accepted=sum(1 for l in cert if " OK " in l), certificates_failed=len(cert_fail), certificates_too_big=sum(1 for l in cert if " TOOBIG " in l),
+                                   certificates_unsupported=sum(1 for l in cert if " UNSUPPORTED " in l), designs_with_certificate_attempt=len(certable),
+                                   designs=len(designs) - skipped, skipped=skipped, trace_pairs_compared=compared, defined_pin_bits_compared=bits,
                                    traces_validated_against_model=tie_ok, tie_unsupported=len(tie_uns), feature_histogram=feat,
-                                   note="64..400-bit signals; decided by the tie and the real-simulator differential (sampled stimuli), no certificate",
+                                   note="64..400-bit signals; tie for all; verified certificate (all stimuli, all cycles) where the design has few input bits; real-simulator differential (sampled stimuli) for all",
                                    sample=designs[-1][0] if designs else None)
     broken = []
+    if cert_rej:
+        broken.append(f"wide designs: {len(cert_rej)} certificates rejected by the verified checker, first: {cert_rej[0][:300]}")
+    if unconfirmed:
+        broken.append(f"wide designs: {len(unconfirmed)} model counterexamples not reproduced on the real simulator, first: {unconfirmed[0][:300]}")
     if tie_bad:
         broken.append(f"wide designs: {len(tie_bad)} tie mismatches, first: {tie_bad[0][:300]}")
     seen = set()
